@@ -202,3 +202,86 @@ func (g *Gen) symbolObligations(id string) {
 	}
 	_ = token.ADD
 }
+
+// ---------------------------------------------------------------------------------------------
+// C16: the hoisting order of treeSort, extracted from its priority map literal.
+// ---------------------------------------------------------------------------------------------
+func (g *Gen) sortObligations(id string) {
+	if id != "C16" {
+		return
+	}
+	fd := g.P.Funcs["treeSort"]
+	add := func(name, goal, text string) {
+		g.Obls = append(g.Obls, &Obligation{Name: name, Props: []string{"C16"}, Goal: goal, Text: text, Unit: "treeSort"})
+	}
+	if fd == nil {
+		g.errorf("treeSort: function not found")
+		return
+	}
+	prio := map[string]int64{}
+	stable := false
+	var less *ast.FuncLit
+	ast.Inspect(fd.Body, func(n ast.Node) bool {
+		switch x := n.(type) {
+		case *ast.CompositeLit:
+			if _, ok := g.P.Info.Types[x].Type.Underlying().(interface{ Key() interface{} }); ok {
+			}
+			for _, el := range x.Elts {
+				kv, ok := el.(*ast.KeyValueExpr)
+				if !ok {
+					continue
+				}
+				k, ok := kv.Key.(*ast.BasicLit)
+				if !ok {
+					continue
+				}
+				key, _ := strconv.Unquote(k.Value)
+				tv := g.P.Info.Types[kv.Value]
+				if tv.Value != nil && tv.Value.Kind() == constant.Int {
+					v, _ := constant.Int64Val(tv.Value)
+					prio[key] = v
+				}
+			}
+		case *ast.CallExpr:
+			if sel, ok := x.Fun.(*ast.SelectorExpr); ok {
+				if id, ok := sel.X.(*ast.Ident); ok && id.Name == "sort" {
+					if sel.Sel.Name == "SliceStable" {
+						stable = true
+						if len(x.Args) == 2 {
+							less, _ = x.Args[1].(*ast.FuncLit)
+						}
+					}
+				}
+			}
+		}
+		return true
+	})
+	p := func(k string) int64 { return prio[k] } // absent keys: Go's zero value 0 = "everything else"
+	add("treeSort/stable", ifs(stable, "true", "false"), "the declarations are reordered with sort.SliceStable (equal-priority nodes keep their source order)")
+	add("treeSort/hoist-function", ifs(p("function") > 0, "true", "false"), fmt.Sprintf("functions (priority %d) are hoisted above statements and initialisers (priority 0)", p("function")))
+	add("treeSort/hoist-method", ifs(p("method") > 0, "true", "false"), fmt.Sprintf("methods (priority %d) are hoisted above statements (0)", p("method")))
+	add("treeSort/hoist-type", ifs(p("type") > p("method") && p("type") > p("function"), "true", "false"), fmt.Sprintf("types (%d) come before methods (%d) and functions (%d): a method needs its type object", p("type"), p("method"), p("function")))
+	add("treeSort/import-first", ifs(p("import") > p("type"), "true", "false"), "imports precede every declaration")
+	add("treeSort/const", ifs(p("const") > 0, "true", "false"), "constants are in place before statements run")
+	add("treeSort/init-last", ifs(p("init") < 0, "true", "false"), fmt.Sprintf("init functions (priority %d) run after all statements (0)", p("init")))
+	for _, k := range []string{"var", ":=", "=", "call", "if", "for", "(name)"} {
+		add("treeSort/statement-class["+k+"]", ifs(p(k) == 0, "true", "false"), "statement kind "+k+" stays in the stable default class 0")
+	}
+	// the comparator is a strict 'greater priority first'
+	cmpOK := false
+	if less != nil {
+		ast.Inspect(less.Body, func(n ast.Node) bool {
+			if r, ok := n.(*ast.ReturnStmt); ok && len(r.Results) == 1 {
+				if b, ok := r.Results[0].(*ast.BinaryExpr); ok && b.Op == token.GTR {
+					x, okx := b.X.(*ast.Ident)
+					y, oky := b.Y.(*ast.Ident)
+					if okx && oky && x.Name == "am" && y.Name == "bm" {
+						cmpOK = true
+					}
+				}
+			}
+			return true
+		})
+	}
+	add("treeSort/comparator", ifs(cmpOK, "true", "false"), "less(a, b) is prio(a) > prio(b): a strict weak order, higher priority first")
+}
